@@ -30,6 +30,7 @@ EXPLANATION = (
     "_get_app_id(subroutine_id), the subroutine's own app id, or the function's app_id parameter (checked at the call sites). "
     "Allocation is under `slot is None` and a dominating bound check; free raises on an empty slot."
     ' Mark-then-map: from a statement that marks a physical address in use every path to a return or raise maps it or hands it on; no state effect precedes an explicit raise/assert in an executor method. C13.Z: no truthiness test on an int-typed value.'
+    " Handing a marked address to a callee counts as mapping it only if the callee cannot raise before storing it (unless the caller's path facts exclude that raise); calls into the network stack are fault points; mutator calls on subscripted tables are state effects. C13.K: memoisation keys cover the arguments."
 )
 LEVEL_TEXT = (
     "Static analysis, partial: lifecycle pairing, used-set coherence, app-keyed indexing and allocation guards are decided for every "
@@ -103,7 +104,7 @@ def unit_module_locals(fn) -> Set[str]:
     return out
 
 
-def check_used_set(ctx):
+def check_used_set(ctx, rule="C13.U"):
     repo = ctx.repo
     ex = repo.get_class(EXE, "Executor")
     m = ex.module
@@ -142,16 +143,17 @@ def check_used_set(ctx):
                         w = c.args[0].id
                         if any(A.norm(d) == f"{um}[{idx}]" for d in mdefs.get(w, [])):
                             ok = True
-                ctx.check("C13.U", f"{name}:clear-entry-removes-from-used-set", ok,
+                ctx.check(rule, f"{name}:clear-entry-removes-from-used-set", ok,
                           f"{name} clears {um}[{idx}] but does not remove the physical address read from that entry from {USED}: the physical qubit stays marked in use", repo.loc(m, st),
                           sample={"function": name, "store": src(st)})
                 continue
             if not isinstance(v, ast.Name):
-                ctx.error("C13.U", f"{name}: unit-module store of a non-name value `{src(st)}`")
+                ctx.error(rule, f"{name}: unit-module store of a non-name value `{src(st)}`")
                 continue
             # every definition of v: callee that adds its result, or explicit add in function, or parameter (callers checked)
             sources = []
-            local_add = any(is_used_call(c, "add", v.id) for c in A.calls_in(fn))
+            # the function marks the stored name itself on every way to the store (nothing rebinds the name in between)
+            local_add = any(is_used_call(c, "add", v.id) for s2 in G.dominating_stmts(fn, st) if isinstance(s2, ast.Expr) for c in ast.walk(s2))
             for d in mdefs.get(v.id, []):
                 if isinstance(d, ast.Call) and A.is_self_attr(d.func) and d.func.attr in adds_result:
                     sources.append(("callee-adds", d.func.attr, True))
@@ -168,17 +170,19 @@ def check_used_set(ctx):
                             if arg is None or (isinstance(arg, ast.Constant) and arg.value is None):
                                 continue
                             n_callers += 1
+                            if local_add:
+                                continue
                             ok = isinstance(arg, ast.Name) and any(is_used_call(x, "add", arg.id) for s2 in G.dominating_stmts(cfn, c) for x in ast.walk(s2))
-                            ctx.check("C13.U", f"{cname}->{name}:{v.id}:added-before-call", ok,
+                            ctx.check(rule, f"{cname}->{name}:{v.id}:added-before-call", ok,
                                       f"{cname} passes physical address `{src(arg)}` to {name} without adding it to {USED} first: two virtual qubits can be mapped to it", repo.loc(m, c),
                                       sample={"caller": cname, "callee": name, "arg": src(arg)})
                             callers_ok = callers_ok and ok
                 sources.append(("parameter", f"{n_callers} caller(s)", callers_ok or local_add))
             ok = bool(sources) and all(s[2] for s in sources)
-            ctx.check("C13.U", f"{name}:stored-address-is-in-used-set", ok,
+            ctx.check(rule, f"{name}:stored-address-is-in-used-set", ok,
                       f"{name} stores `{v.id}` into a unit module but not every source of it is added to {USED}: {sources}", repo.loc(m, st),
                       sample={"function": name, "sources": [(a, b) for a, b, c in sources]})
-    ctx.anchor("C13.U", "stores into a unit module", stores, 2)
+    ctx.anchor(rule, "stores into a unit module", stores, 2)
     # mark-then-map: once an address is marked in use, every way out of the function (return or raise) maps it or hands it on
     from ..flow import CFG, header_parts
     stores_param = {}
@@ -189,6 +193,54 @@ def check_used_set(ctx):
             if isinstance(st, ast.Assign) and isinstance(st.targets[0], ast.Subscript) and isinstance(st.targets[0].value, ast.Name) and st.targets[0].value.id in ums \
                     and isinstance(st.value, ast.Name) and st.value.id in ps:
                 stores_param.setdefault(name, set()).add(st.value.id)
+    import networkx as nx
+    callee_cfg = {}
+
+    def callee_faults_before_store(caller, call_stmt, call, callee_name, pn):
+        """text of a `raise` of the callee that can be reached before parameter pn is stored into a unit module and that
+        the caller does not exclude (a fact on the caller's path to the call that contradicts a fact on the callee's
+        path to that raise, after substituting arguments for parameters and expanding single-definition locals).
+        A call made under a try with handlers is not judged."""
+        for t in ast.walk(caller):
+            if isinstance(t, ast.Try) and t.handlers and any(s is call_stmt for b in t.body for s in ast.walk(b)):
+                return None
+        cfn = ex.methods[callee_name]
+        if callee_name not in callee_cfg:
+            callee_cfg[callee_name] = CFG(cfn)
+        ccfg = callee_cfg[callee_name]
+        cums = unit_module_locals(cfn)
+
+        def stores(s2):
+            return any(isinstance(x, ast.Assign) and isinstance(x.targets[0], ast.Subscript) and isinstance(x.targets[0].value, ast.Name) and x.targets[0].value.id in cums
+                       and isinstance(x.value, ast.Name) and x.value.id == pn for p_ in header_parts(s2) for x in ast.walk(p_))
+
+        cps = A.param_names(cfn)
+        binding = {}
+        for k_, p_ in enumerate(cps[1:]):
+            a_ = A.get_arg(call, k_, p_)
+            if a_ is not None:
+                binding[p_] = a_
+        caller_defs = A.single_defs(caller)
+        caller_facts = {(A.norm(A.expand(t, caller_defs)), pol) for t, pol in G.path_conditions(caller, call_stmt)}
+        callee_defs = A.single_defs(cfn)
+        for r in A.body_nodes(cfn):
+            if not isinstance(r, (ast.Raise, ast.Assert)):
+                continue
+            rn = ccfg.node(r)
+            if rn is None or not ccfg.paths_avoiding(stores, ccfg.entry, rn) or stores(r):
+                continue
+            facts = list(G.path_conditions(cfn, r))
+            if isinstance(r, ast.Assert):
+                facts.append((r.test, False))
+            excluded = False
+            for t, pol in facts:
+                t2 = A.expand(A.expand(A.expand(t, callee_defs), binding, depth=1), caller_defs)
+                if (A.norm(t2), not pol) in caller_facts:
+                    excluded = True
+            if not excluded:
+                return f"`{src(r)[:60]}`"
+        return None
+
     marks = 0
     for name, fn in sorted(ex.methods.items()):
         cfg = None
@@ -226,12 +278,28 @@ def check_used_set(ctx):
                     leaks.append("a raise")
                 if cfg.paths_avoiding(maps, node, cfg.exit):
                     leaks.append("a return")
+                # handing the marked address on counts as mapping it only if the callee cannot fault before it stores it
+                for s2 in A.body_nodes(fn):
+                    n2 = cfg.node(s2) if isinstance(s2, ast.stmt) else None
+                    if n2 is None or n2 == node or not nx.has_path(cfg.g, node, n2):
+                        continue
+                    for p_ in header_parts(s2):
+                        for x in ast.walk(p_):
+                            if not (isinstance(x, ast.Call) and A.is_self_attr(x.func) and x.func.attr in stores_param):
+                                continue
+                            for pn in stores_param[x.func.attr]:
+                                cps = A.param_names(ex.methods[x.func.attr])
+                                a = A.get_arg(x, cps.index(pn) - 1, pn)
+                                if isinstance(a, ast.Name) and a.id == v:
+                                    why = callee_faults_before_store(fn, s2, x, x.func.attr, pn)
+                                    if why:
+                                        leaks.append(f"a fault inside {x.func.attr} ({why}) that is raised before `{pn}` is stored")
             ctx.fn(f"Executor.{name}")
-            ctx.check("C13.U", f"{name}:{v}:marked-address-is-mapped-on-every-way-out", node is not None and not leaks,
+            ctx.check(rule, f"{name}:{v}:marked-address-is-mapped-on-every-way-out", node is not None and not leaks,
                       f"{name} marks `{v}` as in use ({src(st)}) and can then leave through {' and '.join(leaks) or '?'} without mapping it into a unit module or handing it on: "
                       "the address stays in the in-use set while no virtual qubit maps to it, and stopping the application never releases it", repo.loc(m, st),
                       sample={"function": name, "mark": src(st)})
-    ctx.anchor("C13.U", "statements marking a physical address as in use", marks, 3)
+    ctx.anchor(rule, "statements marking a physical address as in use", marks, 3)
     # _get_unused_physical_qubit picks an address that is not in the set
     fn = ex.methods.get("_get_unused_physical_qubit")
     if fn is None:
@@ -242,7 +310,7 @@ def check_used_set(ctx):
         if isinstance(r.value, ast.Name):
             tests = G.path_conditions(fn, r)
             ok = any((not pol) and isinstance(t, ast.Compare) and isinstance(t.ops[0], ast.In) and A.norm(t.left) == r.value.id and A.is_self_attr(t.comparators[0], USED) for t, pol in tests)
-    ctx.check("C13.U", "_get_unused_physical_qubit:returns-address-not-in-used-set", ok, "the returned physical address is not tested to be outside the used set", repo.loc(m, fn))
+    ctx.check(rule, "_get_unused_physical_qubit:returns-address-not-in-used-set", ok, "the returned physical address is not tested to be outside the used set", repo.loc(m, fn))
     # dropping a module: every non-None entry removed
     cq = ex.methods.get("_clear_qubits")
     if cq is None:
@@ -261,7 +329,7 @@ def check_used_set(ctx):
                     el = c.args[0].id
                     facts = [(A.norm(t), pol) for t, pol in G.path_conditions(cq, c)]
                     ok = all((n_ == f"{el}isNone" and not pol) or (n_ == f"{el}isnotNone" and pol) for n_, pol in facts)
-    ctx.check("C13.U", "_clear_qubits:drop-module-removes-every-mapped-address", ok,
+    ctx.check(rule, "_clear_qubits:drop-module-removes-every-mapped-address", ok,
               "stopping an application drops its unit module without removing every mapped physical address from the used set", repo.loc(m, cq))
 
 
@@ -269,7 +337,7 @@ STATE_WRITERS = {"_set_register", "_set_array_entry", "_set_array_slice", "_init
 MUTATORS = ("add", "remove", "pop", "append", "clear", "update", "discard", "insert", "extend", "setdefault", "popitem")
 
 
-def check_fault_atomicity(ctx, rule="C13.U"):
+def check_fault_atomicity(ctx, rule="C13.U", only=None, floor=15):
     """A fault leaves the state as it was: inside one executor method no state effect precedes an explicit `raise` on any
     path (effects: writes to registers / arrays / unit modules / the in-use set / the program counter / the controller's
     tables, directly or through a callee that has such an effect).  The order 'check, then write' is the repository's own
@@ -284,8 +352,12 @@ def check_fault_atomicity(ctx, rule="C13.U"):
         if isinstance(x, ast.Call) and isinstance(x.func, ast.Attribute):
             if A.is_self_attr(x.func) and x.func.attr in STATE_WRITERS:
                 return x.func.attr
-            if x.func.attr in MUTATORS and A.is_self_attr(x.func.value):
-                return A.norm(x.func)
+            if x.func.attr in MUTATORS:
+                b = x.func.value
+                while isinstance(b, ast.Subscript):  # self._table[key].append(...)
+                    b = b.value
+                if A.is_self_attr(b):
+                    return A.norm(x.func)
         if isinstance(x, (ast.Assign, ast.AugAssign)):
             for t in (x.targets if isinstance(x, ast.Assign) else [x.target]):
                 if isinstance(t, ast.Subscript):
@@ -306,9 +378,16 @@ def check_fault_atomicity(ctx, rule="C13.U"):
         for name, fn in ex.methods.items():
             if not eff[name] and any(isinstance(c, ast.Call) and A.is_self_attr(c.func) and eff.get(c.func.attr) for c in ast.walk(fn)):
                 eff[name] = changed = True
+    def external_fault_point(st):
+        """a call into the pluggable network stack: it may refuse the request by raising"""
+        return any(isinstance(x, ast.Call) and isinstance(x.func, ast.Attribute) and (A.is_self_attr(x.func.value, "network_stack") or A.is_self_attr(x.func.value, "_network_stack"))
+                   for p_ in header_parts(st) for x in ast.walk(p_))
+
     n_raising = 0
     for name, fn in sorted(ex.methods.items()):
-        if name == "__init__" or not any(isinstance(x, (ast.Raise, ast.Assert)) for x in A.body_nodes(fn)):
+        if name == "__init__" or not any(isinstance(x, (ast.Raise, ast.Assert)) or (isinstance(x, ast.stmt) and external_fault_point(x)) for x in A.body_nodes(fn)):
+            continue
+        if only is not None and not only(name, fn):
             continue
         n_raising += 1
         ctx.fn(f"Executor.{name}")
@@ -331,10 +410,16 @@ def check_fault_atomicity(ctx, rule="C13.U"):
                         what = what or f"call of {x.func.attr} (which changes state)"
             if what and nx.has_path(cfg.g, n, cfg.raise_exit):
                 bad.append(f"{what} at line {st.lineno}")
+            elif what:
+                for s2 in A.body_nodes(fn):
+                    n2 = cfg.node(s2) if isinstance(s2, ast.stmt) else None
+                    if n2 is not None and n2 != n and external_fault_point(s2) and nx.has_path(cfg.g, n, n2):
+                        bad.append(f"{what} at line {st.lineno}, before the network stack is asked at line {s2.lineno} (it may refuse)")
+                        break
         ctx.check(rule, f"{name}:no-state-change-before-a-raise", not bad,
                   f"Executor.{name} changes state ({'; '.join(bad)[:200]}) and can then still `raise`: the faulting instruction is no longer without effect "
                   "(e.g. a rejected allocation leaves a physical qubit marked as in use)", repo.loc(m, fn), trivial=True, sample={"function": name} if n_raising <= 2 else None)
-    ctx.anchor(rule, "executor methods with an explicit raise or assert", n_raising, 15)
+    ctx.anchor(rule, "executor methods with an explicit raise, an assert or a call into the network stack", n_raising, floor)
 
 
 def check_indexing(ctx):
@@ -531,19 +616,22 @@ def run(ctx):
     # 0 is an ordinary id / value / address: nothing int-valued may be tested by truthiness (nqsa/truth.py)
     from .. import truth
     truth.check(ctx, "C13.Z", ['netqasm.backend.executor', 'netqasm.backend.qnodeos'])
+    # a value remembered for later calls is keyed by every argument it depends on (nqsa/memo.py)
+    from .. import memo
+    memo.check(ctx, "C13.K", ['netqasm.backend.executor', 'netqasm.backend.qnodeos'])
 
 
 X = "netqasm/backend/executor.py"
 Q = "netqasm/backend/qnodeos.py"
 SEEDS = [
     dict(id="c13-mark-before-slot-test", file=X, expect="C13.U", construct="marked-address-is-mapped",
-         old="        if unit_module[virtual_address] is None:\n            if physical_address is None:\n                physical_address = self._get_unused_physical_qubit()\n                self._used_physical_qubit_addresses.add(physical_address)\n            unit_module[virtual_address] = physical_address",
-         new="        if physical_address is None:\n            physical_address = self._get_unused_physical_qubit()\n        if unit_module[virtual_address] is None:\n            unit_module[virtual_address] = physical_address"),
+         old="        if unit_module[virtual_address] is None:\n            if physical_address is None:\n                physical_address = self._get_unused_physical_qubit()\n            self._used_physical_qubit_addresses.add(physical_address)\n            unit_module[virtual_address] = physical_address",
+         new="        if physical_address is None:\n            physical_address = self._get_unused_physical_qubit()\n        if unit_module[virtual_address] is None:\n            self._used_physical_qubit_addresses.add(physical_address)\n            unit_module[virtual_address] = physical_address"),
     dict(id="c13-stop-keeps-registers", file=X, expect="C13.R", construct="_registers", old="        self._clear_registers(app_id=app_id)\n", new=""),
     dict(id="c13-stop-keeps-arrays", file=X, expect="C13.R", construct="_app_arrays", old="        self._app_arrays.pop(app_id)", new="        self._app_arrays.get(app_id)"),
     dict(id="c13-remove-app", file=Q, expect="C13.R", construct="_active_app_ids", old="        self._remove_app(app_id=app_id)\n", new=""),
     dict(id="c13-free-keeps-used", file=X, expect="C13.U", construct="_free_physical_qubit", old="            unit_module[address] = None\n            self._used_physical_qubit_addresses.remove(physical_address)\n", new="            unit_module[address] = None\n"),
-    dict(id="c13-epr-not-added", file=X, expect="C13.U", construct="_handle_epr_ok_k_response", old="        self._used_physical_qubit_addresses.add(physical_address)\n        self._allocate_physical_qubit(", new="        self._allocate_physical_qubit("),
+    dict(id="c13-epr-not-added", file=X, expect="C13.U", construct="_handle_epr_ok_k_response", old="                physical_address = self._get_unused_physical_qubit()\n            self._used_physical_qubit_addresses.add(physical_address)\n", new="                physical_address = self._get_unused_physical_qubit()\n                self._used_physical_qubit_addresses.add(physical_address)\n"),
     dict(id="c13-clear-qubits-skip", file=X, expect="C13.U", construct="_clear_qubits", old="            self._used_physical_qubit_addresses.remove(physical_address)\n            output = self._clear_phys_qubit_in_memory(physical_address)\n            if isinstance(output, GeneratorType):\n                yield from output\n\n    def _clear_registers",
          new="            output = self._clear_phys_qubit_in_memory(physical_address)\n            if isinstance(output, GeneratorType):\n                yield from output\n\n    def _clear_registers"),
     dict(id="c13-index-const", file=X, expect="C13.I", construct="_set_register", old="        self._registers[app_id][register.name][register.index] = value", new="        self._registers[0][register.name][register.index] = value"),
@@ -555,6 +643,6 @@ SEEDS = [
 ]
 BENIGN = [
     dict(id="c13-benign-drop-duplicate-add", file=X,
-         old="                physical_address = self._get_unused_physical_qubit()\n                self._used_physical_qubit_addresses.add(physical_address)\n",
-         new="                physical_address = self._get_unused_physical_qubit()\n"),
+         old="                physical_address = self._get_unused_physical_qubit()\n",
+         new="                physical_address = self._get_unused_physical_qubit()\n                self._used_physical_qubit_addresses.add(physical_address)\n"),
 ]
